@@ -77,6 +77,57 @@ type methodSet map[string]*ssa.Function
 
 var debugPanics = os.Getenv("GOSYM_DEBUG") != ""
 
+// funcInfo caches per-function facts that are expensive to recompute on every call.
+type funcInfo struct {
+	name    string
+	ext     externalFn
+	harness harnessFn
+	isInit  bool
+	nvals   int
+	index   map[ssa.Value]int
+}
+
+func (i *interpreter) fnInfo(fn *ssa.Function) *funcInfo {
+	if fi, ok := i.finfo[fn]; ok {
+		return fi
+	}
+	fi := &funcInfo{}
+	if fn.Parent() == nil {
+		fi.name = fn.String()
+		fi.ext = externals[fi.name]
+		fi.harness = harnessIntrinsic(fn)
+		fi.isInit = fn.Name() == "init" && fn.Signature.Recv() == nil && fn.Pkg != nil && fn.Synthetic != ""
+	}
+	fi.index = make(map[ssa.Value]int)
+	add := func(v ssa.Value) {
+		if _, ok := fi.index[v]; !ok {
+			fi.index[v] = len(fi.index)
+		}
+	}
+	for _, v := range fn.Params {
+		add(v)
+	}
+	for _, v := range fn.FreeVars {
+		add(v)
+	}
+	for _, v := range fn.Locals {
+		add(v)
+	}
+	for _, b := range fn.Blocks {
+		for _, in := range b.Instrs {
+			if v, ok := in.(ssa.Value); ok {
+				add(v)
+			}
+		}
+	}
+	fi.nvals = len(fi.index)
+	if i.finfo == nil {
+		i.finfo = make(map[*ssa.Function]*funcInfo)
+	}
+	i.finfo[fn] = fi
+	return fi
+}
+
 // State shared between all interpreted goroutines.
 type interpreter struct {
 	prog               *ssa.Program           // the SSA program
@@ -95,6 +146,7 @@ type interpreter struct {
 	stubs     map[string]value          // function redirections installed by a harness
 	monitor   *monitor
 	unsupportedSeen map[string]int
+	finfo     map[*ssa.Function]*funcInfo
 }
 
 type deferred struct {
@@ -109,7 +161,8 @@ type frame struct {
 	caller           *frame
 	fn               *ssa.Function
 	block, prevBlock *ssa.BasicBlock
-	env              map[ssa.Value]value // dynamic values of SSA variables
+	env              []value             // dynamic values of SSA variables, indexed by info.index
+	info             *funcInfo
 	locals           []value
 	defers           *deferred
 	result           value
@@ -133,8 +186,10 @@ func (fr *frame) get(key ssa.Value) value {
 			return r
 		}
 	}
-	if r, ok := fr.env[key]; ok {
-		return r
+	if ix, ok := fr.info.index[key]; ok {
+		if r := fr.env[ix]; r != nil {
+			return r
+		}
 	}
 	panic(fmt.Sprintf("get: no value for %T: %v", key, key.Name()))
 }
@@ -198,35 +253,35 @@ func visitInstr(fr *frame, instr ssa.Instruction) continuation {
 		// no-op
 
 	case *ssa.UnOp:
-		fr.env[instr] = unop(instr, fr.get(instr.X))
+		fr.env[fr.info.index[instr]] = unop(instr, fr.get(instr.X))
 
 	case *ssa.BinOp:
-		fr.env[instr] = binop(instr.Op, instr.X.Type(), fr.get(instr.X), fr.get(instr.Y))
+		fr.env[fr.info.index[instr]] = binop(instr.Op, instr.X.Type(), fr.get(instr.X), fr.get(instr.Y))
 
 	case *ssa.Call:
 		fn, args := prepareCall(fr, &instr.Call)
-		fr.env[instr] = call(fr.i, fr, instr.Pos(), fn, args)
+		fr.env[fr.info.index[instr]] = call(fr.i, fr, instr.Pos(), fn, args)
 
 	case *ssa.ChangeInterface:
-		fr.env[instr] = fr.get(instr.X)
+		fr.env[fr.info.index[instr]] = fr.get(instr.X)
 
 	case *ssa.ChangeType:
-		fr.env[instr] = fr.get(instr.X) // (can't fail)
+		fr.env[fr.info.index[instr]] = fr.get(instr.X) // (can't fail)
 
 	case *ssa.Convert:
-		fr.env[instr] = conv(instr.Type(), instr.X.Type(), fr.get(instr.X))
+		fr.env[fr.info.index[instr]] = conv(instr.Type(), instr.X.Type(), fr.get(instr.X))
 
 	case *ssa.SliceToArrayPointer:
-		fr.env[instr] = sliceToArrayPointer(instr.Type(), instr.X.Type(), fr.get(instr.X))
+		fr.env[fr.info.index[instr]] = sliceToArrayPointer(instr.Type(), instr.X.Type(), fr.get(instr.X))
 
 	case *ssa.MakeInterface:
-		fr.env[instr] = iface{t: instr.X.Type(), v: fr.get(instr.X)}
+		fr.env[fr.info.index[instr]] = iface{t: instr.X.Type(), v: fr.get(instr.X)}
 
 	case *ssa.Extract:
-		fr.env[instr] = fr.get(instr.Tuple).(tuple)[instr.Index]
+		fr.env[fr.info.index[instr]] = fr.get(instr.Tuple).(tuple)[instr.Index]
 
 	case *ssa.Slice:
-		fr.env[instr] = slice(fr.get(instr.X), fr.get(instr.Low), fr.get(instr.High), fr.get(instr.Max))
+		fr.env[fr.info.index[instr]] = slice(fr.get(instr.X), fr.get(instr.Low), fr.get(instr.High), fr.get(instr.Max))
 
 	case *ssa.Return:
 		switch len(instr.Results) {
@@ -291,10 +346,10 @@ func visitInstr(fr *frame, instr ssa.Instruction) continuation {
 		if instr.Heap {
 			// new
 			addr = new(value)
-			fr.env[instr] = addr
+			fr.env[fr.info.index[instr]] = addr
 		} else {
 			// local
-			addr = fr.env[instr].(*value)
+			addr = fr.env[fr.info.index[instr]].(*value)
 		}
 		*addr = zero(mustDeref(instr.Type()))
 
@@ -308,7 +363,7 @@ func visitInstr(fr *frame, instr ssa.Instruction) continuation {
 		for i := range slice {
 			slice[i] = zero(tElt)
 		}
-		fr.env[instr] = slice[:asInt64(fr.get(instr.Len))]
+		fr.env[fr.info.index[instr]] = slice[:asInt64(fr.get(instr.Len))]
 
 	case *ssa.MakeMap:
 		var reserve int64
@@ -318,13 +373,13 @@ func visitInstr(fr *frame, instr ssa.Instruction) continuation {
 		if !fitsInt(reserve, fr.i.sizes) {
 			panic(fmt.Sprintf("ssa.MakeMap.Reserve value %d does not fit in int", reserve))
 		}
-		fr.env[instr] = newOmap(instr.Type().Underlying().(*types.Map).Key())
+		fr.env[fr.info.index[instr]] = newOmap(instr.Type().Underlying().(*types.Map).Key())
 
 	case *ssa.Range:
-		fr.env[instr] = rangeIter(fr, fr.get(instr.X))
+		fr.env[fr.info.index[instr]] = rangeIter(fr, fr.get(instr.X))
 
 	case *ssa.Next:
-		fr.env[instr] = fr.get(instr.Iter).(iter).next()
+		fr.env[fr.info.index[instr]] = fr.get(instr.Iter).(iter).next()
 
 	case *ssa.FieldAddr:
 		xp := fr.get(instr.X)
@@ -334,10 +389,10 @@ func visitInstr(fr *frame, instr ssa.Instruction) continuation {
 		if xp.(*value) == nil {
 			panic("runtime error: invalid memory address or nil pointer dereference")
 		}
-		fr.env[instr] = &(*xp.(*value)).(structure)[instr.Field]
+		fr.env[fr.info.index[instr]] = &(*xp.(*value)).(structure)[instr.Field]
 
 	case *ssa.Field:
-		fr.env[instr] = fr.get(instr.X).(structure)[instr.Field]
+		fr.env[fr.info.index[instr]] = fr.get(instr.X).(structure)[instr.Field]
 
 	case *ssa.IndexAddr:
 		x := fr.get(instr.X)
@@ -355,13 +410,13 @@ func visitInstr(fr *frame, instr ssa.Instruction) continuation {
 			panic(fmt.Sprintf("unexpected x type in IndexAddr: %T", x))
 		}
 		if s, ok := idx.(sym); ok {
-			fr.env[instr] = symIndexAddr(cells, s)
+			fr.env[fr.info.index[instr]] = symIndexAddr(cells, s)
 		} else {
 			k := asInt64(idx)
 			if k < 0 || k >= int64(len(cells)) {
 				panic(fmt.Sprintf("runtime error: index out of range [%d] with length %d", k, len(cells)))
 			}
-			fr.env[instr] = &cells[k]
+			fr.env[fr.info.index[instr]] = &cells[k]
 		}
 
 	case *ssa.Index:
@@ -380,20 +435,20 @@ func visitInstr(fr *frame, instr ssa.Instruction) continuation {
 		if s, ok := idx.(sym); ok {
 			sp := symIndexAddr(cells, s)
 			if p, ok := sp.(*symptr); ok {
-				fr.env[instr] = p.load(instr.Type())
+				fr.env[fr.info.index[instr]] = p.load(instr.Type())
 			} else {
-				fr.env[instr] = *sp.(*value)
+				fr.env[fr.info.index[instr]] = *sp.(*value)
 			}
 		} else {
 			k := asInt64(idx)
 			if k < 0 || k >= int64(len(cells)) {
 				panic(fmt.Sprintf("runtime error: index out of range [%d] with length %d", k, len(cells)))
 			}
-			fr.env[instr] = cells[k]
+			fr.env[fr.info.index[instr]] = cells[k]
 		}
 
 	case *ssa.Lookup:
-		fr.env[instr] = lookup(instr, fr.get(instr.X), fr.get(instr.Index))
+		fr.env[fr.info.index[instr]] = lookup(instr, fr.get(instr.X), fr.get(instr.Index))
 
 	case *ssa.MapUpdate:
 		m := fr.get(instr.Map)
@@ -413,14 +468,14 @@ func visitInstr(fr *frame, instr ssa.Instruction) continuation {
 		}
 
 	case *ssa.TypeAssert:
-		fr.env[instr] = typeAssert(instr, fr.get(instr.X).(iface))
+		fr.env[fr.info.index[instr]] = typeAssert(instr, fr.get(instr.X).(iface))
 
 	case *ssa.MakeClosure:
 		var bindings []value
 		for _, binding := range instr.Bindings {
 			bindings = append(bindings, fr.get(binding))
 		}
-		fr.env[instr] = &closure{instr.Fn.(*ssa.Function), bindings}
+		fr.env[fr.info.index[instr]] = &closure{instr.Fn.(*ssa.Function), bindings}
 
 	case *ssa.Phi:
 		log.Fatal("unreachable") // phis are processed at block entry
@@ -531,31 +586,31 @@ func callSSA(i *interpreter, caller *frame, callpos token.Pos, fn *ssa.Function,
 		caller: caller, // for panic/recover
 		fn:     fn,
 	}
+	info := i.fnInfo(fn)
 	if fn.Parent() == nil {
-		name := fn.String()
 		if len(i.stubs) > 0 {
-			if st, ok := i.stubs[name]; ok {
+			if st, ok := i.stubs[info.name]; ok {
 				return call(i, caller, callpos, st, args)
 			}
 		}
-		if fn.Name() == "init" && fn.Signature.Recv() == nil && fn.Pkg != nil && fn.Synthetic != "" {
+		if info.isInit {
 			if !i.initAllow(fn.Pkg.Pkg.Path()) {
 				return nil
 			}
 		}
-		if ext := externals[name]; ext != nil {
+		if info.ext != nil {
 			if i.mode&EnableTracing != 0 {
 				fmt.Fprintln(os.Stderr, "\t(external)")
 			}
-			if r, handled := ext(fr, args); handled {
+			if r, handled := info.ext(fr, args); handled {
 				return r
 			}
 		}
-		if h := harnessIntrinsic(fn); h != nil {
-			return h(fr, args)
+		if info.harness != nil {
+			return info.harness(fr, args)
 		}
 		if fn.Blocks == nil {
-			unsupported("no code for function %s", name)
+			unsupported("no code for function %s", info.name)
 		}
 	}
 
@@ -574,18 +629,19 @@ func callSSA(i *interpreter, caller *frame, callpos token.Pos, fn *ssa.Function,
 		defer i.monitor.onExit(fr, fn)
 	}
 
-	fr.env = make(map[ssa.Value]value)
+	fr.info = info
+	fr.env = make([]value, info.nvals)
 	fr.block = fn.Blocks[0]
 	fr.locals = make([]value, len(fn.Locals))
 	for i, l := range fn.Locals {
-		fr.locals[i] = zero(mustDeref(l.Type()))
-		fr.env[l] = &fr.locals[i]
+		// (the Alloc instruction stores the zero value each time it executes)
+		fr.env[fr.info.index[l]] = &fr.locals[i]
 	}
 	for i, p := range fn.Params {
-		fr.env[p] = args[i]
+		fr.env[fr.info.index[p]] = args[i]
 	}
 	for i, fv := range fn.FreeVars {
-		fr.env[fv] = env[i]
+		fr.env[fr.info.index[fv]] = env[i]
 	}
 	for fr.block != nil {
 		runFrame(fr)
@@ -675,7 +731,7 @@ func executePhis(fr *frame) []ssa.Instruction {
 			fr.phitemps = append(fr.phitemps, fr.get(phi.Edges[predIndex]))
 		}
 		for i, phi := range phis {
-			fr.env[phi.(*ssa.Phi)] = fr.phitemps[i]
+			fr.env[fr.info.index[phi.(*ssa.Phi)]] = fr.phitemps[i]
 		}
 	}
 	return nonPhis
